@@ -72,14 +72,14 @@ def run_hist(seed, long=False):
                 finally:
                     ev.append({"ev": "read_end", "rv": k, "t": now()})
 
-            from xknx.core.state_updater import StateUpdater
+            # a state update = a GroupValueWrite / GroupValueResponse for one of the value's addresses reaching its device
+            # (observed at the telegram queue, independently of how the value itself notifies the updater)
+            def tg_cb(tg):
+                if isinstance(tg.payload, (GroupValueWrite, GroupValueResponse)) and isinstance(tg.destination_address, GroupAddress) \
+                        and tg.destination_address.main == 1 and tg.destination_address.middle in (1, 2) and tg.destination_address.sub in registered:
+                    ev.append({"ev": "update", "rv": tg.destination_address.sub, "t": now()})
 
-            orig_upd = StateUpdater.update_received
-
-            def upd(self, rv):
-                if id(rv) in rvid:
-                    ev.append({"ev": "update", "rv": rvid[id(rv)], "t": now()})
-                orig_upd(self, rv)
+            xknx.telegram_queue.register_telegram_received_cb(tg_cb, match_for_outgoing=True)
 
             def add(k):
                 if k not in registered:
@@ -98,7 +98,7 @@ def run_hist(seed, long=False):
                 xknx.connection_manager.connection_state_changed(
                     XknxConnectionState.CONNECTED if up else XknxConnectionState.DISCONNECTED)
 
-            with patch.object(ValueReader, "read", read), patch.object(StateUpdater, "update_received", upd):
+            with patch.object(ValueReader, "read", read):
                 for k in devs:
                     if rnd.random() < 0.8:
                         add(k)
